@@ -8,30 +8,40 @@
 // amount carries a timestamp in bucket A = [T-bl, T) or in bucket B = [T, T+bl) - mostly the last
 // millisecond of A and the first of B -, chosen per operation, and every goroutine keeps its own
 // ledger of what it recorded for A and for B.  Both buckets lie inside one window (n >= 2) and no
-// timestamp is older than A, so whatever the schedule: no recorder can be overtaken by a rollover
-// of its own bucket (a slot is only ever reset TO A or TO B, before the first amount for that
-// bucket is added).  At quiescence, for every schedule:
+// timestamp is older than A.  At quiescence, for every schedule:
 //
-//	right_bucket       the slot whose start is A holds exactly the ledgers' amounts for A, the slot
-//	                   whose start is B exactly those for B (an amount is credited to the bucket its
-//	                   timestamp selects);
-//	no_invention       CountWithTime at T (window holding A and B) = everything recorded;
-//	expired_invisible  CountWithTime one interval after A (A expired, B still inside) = the ledgers'
-//	                   amounts for B: nothing recorded for A surfaces in the later window.
+//	right_bucket       the slot whose start is A holds the ledgers' amounts for A, the slot whose
+//	                   start is B those for B (an amount is credited to the bucket its timestamp
+//	                   selects) - EXACTLY when the array was created at A (both slots carry their
+//	                   starts from the beginning: no rollover at all), AT MOST when it was created more
+//	                   than an interval earlier: then the racing recorders roll both slots over
+//	                   themselves, and a recorder that saw the stale start before the winner's reset
+//	                   and takes the lock after the winner released it resets the slot a second time
+//	                   (currentBucketOfTime does not re-check under the lock), wiping amounts recorded
+//	                   in between - updates may be lost there, never duplicated or invented;
+//	no_invention       CountWithTime at T (window holding A and B) = / <= everything recorded;
+//	expired_invisible  CountWithTime one interval after A (A expired, B still inside) = / <= the
+//	                   ledgers' amounts for B: nothing recorded for A surfaces in the later window.
 //
-// Variants: the array is either created at A (both slots already carry their starts) or more than an
-// interval earlier (both slots are rolled over by the racing recorders themselves).  Bounded by fixed
+// A second kind of case ("race", race.go in this file's second half) lets all goroutines record ONE
+// amount each at the same instant in a bucket whose slot is still stale, round after round, so that
+// they race for its rollover: whatever the interleaving the bucket never holds more than was
+// recorded for it (no update duplicated), and the window total never exceeds the recorded total.
+// Bounded by fixed
 // counts; a wall-clock budget can only cut the leg short; a watchdog reports a leg that does not
 // finish (leaked lock); panics of the code under test are reported as monitor failures.
 package main
 
 import (
 	"fmt"
+	"runtime"
 	"sync"
+	"sync/atomic"
 	"time"
 
 	sbase "github.com/alibaba/sentinel-golang/core/base"
 	stat "github.com/alibaba/sentinel-golang/core/stat/base"
+	"github.com/alibaba/sentinel-golang/util/vhook"
 
 	"vh/internal/emit"
 	"vh/internal/rng"
@@ -73,6 +83,8 @@ func runPar(c parCase, deadline time.Time) (f *parFail, rounds int) {
 			f = &parFail{"no_panic", "panic-in-code-under-test", fmt.Sprint(p)}
 		}
 	}()
+	vhook.SetController(&jitter{}) // yield-point jitter, see runRace
+	defer vhook.SetController(nil)
 	bl := uint64(c.BL)
 	itv := uint64(c.N) * bl
 	A, B := c.T-bl, c.T
@@ -160,7 +172,7 @@ func runPar(c parCase, deadline time.Time) (f *parFail, rounds int) {
 					fmt.Sprintf("round %d: no slot carries start %d (bucket %s) although %d/%d were recorded for it", round, []uint64{A, B}[s], names[s], want[s][0], want[s][1])}, rounds
 			}
 			for e := 0; e < 2; e++ {
-				if got[s][e] != want[s][e] {
+				if got[s][e] > want[s][e] || (!c.Stale && got[s][e] != want[s][e]) {
 					o := 1 - s
 					return &parFail{"right_bucket", "amount-credited-to-other-bucket",
 						fmt.Sprintf("round %d: event %d: bucket %s [start %d] holds %d, the goroutines' ledgers recorded %d for it; bucket %s holds %d for %d recorded (boundary %d, %d goroutines x %d amounts)",
@@ -171,7 +183,7 @@ func runPar(c parCase, deadline time.Time) (f *parFail, rounds int) {
 		// window reads
 		for e := 0; e < 2; e++ {
 			all := want[0][e] + want[1][e]
-			if v := arr.CountWithTime(c.T, evs[e]); v != all {
+			if v := arr.CountWithTime(c.T, evs[e]); v > all || (!c.Stale && v != all) {
 				sig := "total-differs-from-recorded"
 				if v > all {
 					sig = "total-exceeds-recorded"
@@ -180,7 +192,7 @@ func runPar(c parCase, deadline time.Time) (f *parFail, rounds int) {
 			}
 		}
 		for e := 0; e < 2; e++ {
-			if v := arr.CountWithTime(A+itv, evs[e]); v != want[1][e] {
+			if v := arr.CountWithTime(A+itv, evs[e]); v > want[1][e] || (!c.Stale && v != want[1][e]) {
 				sig := "later-window-differs-from-recorded"
 				if v > want[1][e] {
 					sig = "expired-bucket-visible"
@@ -224,5 +236,160 @@ func parLeg(root *rng.R, rep *emit.Report, n int, only int, budget time.Duration
 			break
 		}
 		one(parBase + j)
+	}
+}
+
+// ---- racing for the rollover -------------------------------------------------------------------
+
+const raceBase = 1400000
+
+type raceCase struct {
+	ID     int    `json:"id"`
+	N      uint32 `json:"n"`
+	BL     uint32 `json:"bl"`
+	T0     uint64 `json:"t0"` // start of the first bucket recorded into (the array is created one interval earlier)
+	G      int    `json:"goroutines"`
+	Rounds int    `json:"rounds"` // round r: every goroutine records Amt once with timestamp T0 + r*bl (+ offset < bl)
+	Amt    int64  `json:"amount"`
+}
+
+func genRace(r *rng.R, id int, rounds int) raceCase {
+	c := raceCase{ID: id, Rounds: rounds}
+	c.N = uint32(r.PickI(2, 3, 4, 4))
+	c.BL = uint32(r.PickI(1, 10, 500))
+	c.T0 = uint64(r.Range(1000, 2000000)) * uint64(c.BL) * 3
+	c.G = int(r.PickI(8, 16, 16))
+	c.Amt = r.PickI(1, 1, 3)
+	return c
+}
+
+func runRace(c raceCase, deadline time.Time) (f *parFail, rounds int) {
+	defer func() {
+		if p := recover(); p != nil {
+			f = &parFail{"no_panic", "panic-in-code-under-test", fmt.Sprint(p)}
+		}
+	}()
+	bl := uint64(c.BL)
+	arr := stat.NewBucketLeapArrayWithTime(c.N, c.N*c.BL, c.T0-uint64(c.N)*bl)
+	// yield-point jitter: every goroutine gives up the processor at a pseudo-random quarter of the yield
+	// points of the lock-free code it passes (vhook.Yield sits immediately before each atomic access), so
+	// the windows between two accesses - e.g. between seeing a stale start and the TryLock - are actually
+	// hit by the other recorders.  Every asserted fact holds under every schedule, jitter or not.
+	vhook.SetController(&jitter{})
+	defer vhook.SetController(nil)
+	gates := make([]chan struct{}, c.Rounds)
+	for i := range gates {
+		gates[i] = make(chan struct{})
+	}
+	var wg sync.WaitGroup
+	var mu sync.Mutex
+	var panics []string
+	stop := make(chan struct{})
+	for g := 0; g < c.G; g++ {
+		go func(g int) {
+			defer func() {
+				if p := recover(); p != nil {
+					mu.Lock()
+					panics = append(panics, fmt.Sprint(p))
+					mu.Unlock()
+					wg.Done()
+				}
+			}()
+			for r := 0; r < c.Rounds; r++ {
+				select {
+				case <-gates[r]:
+				case <-stop:
+					return
+				}
+				arr.VerifAddCountWithTime(c.T0+uint64(r)*bl+uint64(g)%bl, sbase.MetricEventPass, c.Amt)
+				wg.Done()
+			}
+		}(g)
+	}
+	defer close(stop)
+	per := int64(c.G) * c.Amt
+	for r := 0; r < c.Rounds; r++ {
+		if time.Now().After(deadline) {
+			break
+		}
+		wg.Add(c.G)
+		close(gates[r])
+		fin := make(chan struct{})
+		go func() { wg.Wait(); close(fin) }()
+		select {
+		case <-fin:
+		case <-time.After(30 * time.Second):
+			return &parFail{"termination", "racing-recorders-did-not-finish", fmt.Sprintf("round %d: %d recorders racing for the rollover of bucket %d did not finish within 30 s", r, c.G, c.T0+uint64(r)*bl)}, rounds
+		}
+		mu.Lock()
+		np := len(panics)
+		mu.Unlock()
+		if np > 0 {
+			return &parFail{"no_panic", "panic-in-code-under-test", panics[0]}, rounds
+		}
+		rounds++
+		S := c.T0 + uint64(r)*bl
+		found := false
+		for _, row := range arr.VerifSlots() {
+			if uint64(row[0]) == S {
+				found = true
+				if got := row[1+int(sbase.MetricEventPass)]; got > per || got < 0 {
+					return &parFail{"no_invention", "update-duplicated-at-rollover",
+						fmt.Sprintf("round %d: %d goroutines recorded %d each with timestamps in bucket %d while its slot was being rolled over; the bucket holds %d > %d recorded", r, c.G, c.Amt, S, got, per)}, rounds
+				}
+			}
+		}
+		if !found {
+			return &parFail{"right_bucket", "bucket-of-recorded-timestamps-missing", fmt.Sprintf("round %d: no slot carries start %d after %d recorders used it", r, S, c.G)}, rounds
+		}
+		inWin := int64(r + 1)
+		if inWin > int64(c.N) {
+			inWin = int64(c.N)
+		}
+		if v := arr.CountWithTime(S, sbase.MetricEventPass); v > inWin*per || v < 0 {
+			return &parFail{"no_invention", "total-exceeds-recorded", fmt.Sprintf("round %d: window at %d reports %d, recorded in it %d", r, S, v, inWin*per)}, rounds
+		}
+	}
+	return nil, rounds
+}
+
+func raceLeg(root *rng.R, rep *emit.Report, n, roundsPer int, only int, budget time.Duration) {
+	deadline := time.Now().Add(budget)
+	one := func(id int) {
+		c := genRace(root.Fork(uint64(id)), id, roundsPer)
+		f, rounds := runRace(c, deadline)
+		rep.Evaluations++
+		rep.Count("race_cases", 1)
+		rep.Count("race_rollovers_raced_for", c.Rounds) // configured, not measured: deterministic
+		if rounds < c.Rounds && f == nil {
+			rep.Count("race_cut_short_by_budget", 1)
+		}
+		if f != nil {
+			rep.Fail(c.ID, f.clause, f.sig, f.detail, c)
+		}
+		if only >= 0 {
+			fmt.Printf("{\"input\": %+v, \"rounds\": %d}\n", c, rounds)
+		}
+	}
+	if only >= 0 {
+		one(only)
+		return
+	}
+	before := len(rep.MonitorFailures)
+	for j := 0; j < n; j++ {
+		if len(rep.MonitorFailures) > before {
+			break
+		}
+		one(raceBase + j)
+	}
+}
+
+// jitter is a vhook.Controller for real-thread legs: no goroutine is ever held, a quarter of the yields
+// hand the processor to somebody else
+type jitter struct{ n uint64 }
+
+func (j *jitter) OnYield(int) {
+	if x := atomic.AddUint64(&j.n, 0x9E3779B97F4A7C15); (x>>61)&3 == 0 {
+		runtime.Gosched()
 	}
 }
